@@ -68,6 +68,11 @@ pub struct Script {
     /// (0/1 = all distinct). Directory first-chunk times stay distinct.
     #[serde(default)]
     pub tie_group: u8,
+    /// when a chunk in the middle of a volume never appears: 0 = nothing is uploaded after it; k = 1..=3: the uploader goes
+    /// on regardless, and the first k chunks of the NEXT volume become visible while the poller is still retrying (the
+    /// poller must report the missing chunk, never skip ahead to them)
+    #[serde(default)]
+    pub hole_continue: u8,
 }
 
 const N_DIRS: usize = 999;
@@ -160,6 +165,8 @@ pub struct PollWorld {
     pub site: String,
     pub script: Script,
     frontier: usize,
+    /// failed GETs for a never-appearing chunk so far
+    hole_misses: u8,
     pending_used: u8,
     transient_left: HashMap<usize, u8>,
     list_transient_used: u8,
@@ -185,6 +192,7 @@ impl PollWorld {
             site,
             script,
             frontier,
+            hole_misses: 0,
             pending_used: 0,
             transient_left: HashMap::new(),
             list_transient_used: 0,
@@ -203,7 +211,16 @@ impl PollWorld {
     }
 
     fn visible(&self, volume: usize, seq: usize) -> bool {
-        self.in_run(volume) && self.script.lin(volume, seq) <= self.frontier
+        self.in_run(volume) && (self.script.lin(volume, seq) <= self.frontier || self.beyond_hole(volume, seq))
+    }
+
+    /// Chunks the uploader made visible although the chunk after the frontier never appeared (see `hole_continue`).
+    fn beyond_hole(&self, volume: usize, seq: usize) -> bool {
+        if self.script.hole_continue == 0 || self.hole_misses < 2 {
+            return false;
+        }
+        let (fv, fs) = self.script.pos(self.frontier);
+        fs != 55 && self.script.entry(self.frontier + 1).delay == NEVER && volume == fv % N_DIRS + 1 && seq <= self.script.hole_continue.min(3) as usize
     }
 
     fn listed_one(&self, volume: usize, s: usize) -> Option<ListedObject> {
@@ -279,7 +296,7 @@ impl World for PollWorld {
                 Self::error_doc(status)
             } else {
                 // only volumes whose "SITE/<v>/" key prefix is compatible with the requested prefix are expanded
-                let last_order = self.frontier / 55;
+                let last_order = self.frontier / 55 + 1;
                 let mut objects: Vec<ListedObject> = (0..=last_order)
                     .map(|order| (self.script.first_volume() - 1 + order) % N_DIRS + 1)
                     .filter(|v| {
@@ -316,6 +333,7 @@ impl World for PollWorld {
                     if lin == self.frontier + 1 {
                         let e = self.script.entry(lin);
                         if e.delay == NEVER {
+                            self.hole_misses = self.hole_misses.saturating_add(1);
                             status = 404;
                         } else if self.pending_used < e.delay {
                             self.pending_used += 1;
@@ -634,12 +652,13 @@ pub fn script_strategy() -> impl Strategy<Value = Script> {
         (Just(v), vec(gen::realistic_cut(), n))
     }))
         .prop_map(|(start_volume, run_length, start_sequence, mut entries, never_at, consumer, (with_stats, delivery, tie_group), last_modified_header, (mut vcp, cuts))| {
+            let hole_continue = (delivery / 4 + tie_group) % 4; // derived from other draws: 0..=3
             vcp.cuts = cuts;
             if let (Some(sel), false) = (never_at, entries.is_empty()) {
                 let i = (sel as usize * entries.len()) >> 16;
                 entries[i].delay = NEVER;
             }
-            Script { start_volume, run_length, start_sequence, entries, consumer, with_stats, last_modified_header, vcp, delivery, tie_group }
+            Script { start_volume, run_length, start_sequence, entries, consumer, with_stats, last_modified_header, vcp, delivery, tie_group, hole_continue }
         })
 }
 
@@ -663,6 +682,7 @@ pub fn classify(s: &Script) -> CaseInfo {
         .class(s.run_length >= 100, "widely-populated-bucket")
         .class(s.tie_group >= 2, "tied-upload-times")
         .class(s.delivery & 4 != 0, "pretty-printed-listings")
+        .class(s.hole_continue > 0 && s.entries.iter().take(natural.len()).any(|e| e.delay == NEVER), "uploader-continues-past-a-missing-chunk")
 }
 
 pub fn run(ctx: &Ctx, rep: &mut Report) {
